@@ -401,6 +401,7 @@ func (s *session) end(op hOp) {
 			s.label("end_transient_after_events")
 		}
 		// exactly one successful reopen, from the latest settled position
+		pauseChecked := false
 		deadline := time.Now().Add(time.Duration(fails)*1200*time.Millisecond + 10*time.Second)
 		for {
 			ok := 0
@@ -411,6 +412,44 @@ func (s *session) end(op hOp) {
 			}
 			if ok >= 1 {
 				break
+			}
+			if fails > 0 && !pauseChecked && s.oracles["C12"] {
+				refused := false
+				for _, r := range s.cl.openLog()[nOpens:] {
+					refused = refused || (r.Vb == m.vb && r.Err != "")
+				}
+				if refused {
+					// inside the library's retry pause: the vBucket has ended with a transient cause only - it still counts as an
+					// active stream, and the client keeps running even if every OTHER vBucket ends for good meanwhile
+					pauseChecked = true
+					s.label("checked_inside_reopen_retry_pause")
+					total, ended := 0, 0
+					for _, x := range s.vbs {
+						total++
+						if x.ended {
+							ended++
+						}
+					}
+					if _, active := s.st.GetMetric(); int(active) != total-ended {
+						s.fail("C12", "vb %d waits for the retry of its refused re-request (transient end): active-stream count %d, but %d of %d assigned vBuckets have not finally ended", m.vb, active, total-ended, total)
+						return
+					}
+					if op.Snap%4 == 0 && total-ended >= 2 {
+						for vb2, x := range s.vbs {
+							if vb2 != m.vb && !x.ended {
+								x.ended, x.dead = true, true
+								s.cl.serverEnd(vb2, nil)
+							}
+						}
+						time.Sleep(2 * time.Millisecond)
+						if stopChClosed(s.stopCh) {
+							s.fail("C12", "the client stopped although vb %d has only ended with a transient cause (it waits for the retry of its refused re-request; every other vBucket ended for good meanwhile)", m.vb)
+							s.stopped = true
+							return
+						}
+						s.label("others_ended_inside_reopen_retry_pause")
+					}
+				}
 			}
 			if time.Now().After(deadline) {
 				s.fail("C12", "vb %d: stream ended with transient cause %q but was not reopened", m.vb, op.Kind)
